@@ -376,6 +376,15 @@ Proof.
     unfold index_bound. lia.
 Qed.
 
+Theorem parse_elem_accepts_iff e i :
+  (exists z, parse_elem e = Ok z /\ key_index z = Ok i) <-> elem_spells e i.
+Proof.
+  split.
+  - intros (z & H & K). exact (parse_elem_complete _ e z i H K).
+  - intros H. exists (Z.of_N i). split; [exact (parse_elem_sound e i H _)|].
+    apply key_index_of_N. destruct H as (?&?&?&?&_&_&_&_&_&Hi). exact Hi.
+Qed.
+
 (* ------------------------------------------------------------------ whole path: completeness *)
 
 Lemma make_path_ok zs ab p : make_path zs ab = Ok p ->
